@@ -4,7 +4,7 @@
 id=$1; shift
 mkdir -p /verif/seeded/$id
 cp /tmp/seed_$id/patch.diff /tmp/seed_$id/demo.cpp /tmp/seed_$id/README.txt /verif/seeded/$id/
-FLAGS=$(grep -m1 -o '^FLAGS:.*' /tmp/seed_$id/README.txt | sed 's/^FLAGS: *//; s/ *(.*$//')
+FLAGS=$(grep -m1 -o '^FLAGS:.*' /tmp/seed_$id/README.txt | sed 's/^FLAGS: *//; s/ *(.*$//; s/^none.*//')
 /verif/tools/confirm_seed.sh $id $FLAGS > /dev/null 2>&1
 cp /tmp/seed_$id/confirm.txt /verif/seeded/$id/confirm.txt
 cat /verif/seeded/$id/confirm.txt
